@@ -51,8 +51,11 @@ const PATHS: &[&str] = &[
     "/bkt/a*b",
     "/bkt/a%2Bb",
     "/bkt/a%2Ab",
+    // keys that themselves contain an escape-shaped text: "a%20b", "%41"
+    "/bkt/a%2520b",
+    "/bkt/%2541",
 ];
-const QUERIES: &[&str] = &["", "a=1", "a=", "a", "b=2&a=1", "a=2&a=1", "a=1&a=2", "a=%20+%2F", "k=%C3%A9", "A=1&a=2"];
+const QUERIES: &[&str] = &["", "a=1", "a=", "a", "b=2&a=1", "a=2&a=1", "a=1&a=2", "a=%20+%2F", "k=%C3%A9", "A=1&a=2", "k=%2541&%2520=v"];
 const HDR_VARIANTS: usize = 10;
 
 fn hdr_variant(r: &mut Req, v: usize) {
@@ -193,6 +196,7 @@ enum Mutn {
     BodyAppend,
     BodyTruncate,
     SigDigit(usize),
+    SigLength(usize),
     CredKeyOther,
     CredKeyUnknown,
     CredDate,
@@ -232,6 +236,7 @@ impl Mutn {
             Mutn::BodyAppend => "body-append",
             Mutn::BodyTruncate => "body-truncate",
             Mutn::SigDigit(_) => "signature-digit",
+            Mutn::SigLength(_) => "signature-length",
             Mutn::CredKeyOther => "scope-key-other-known",
             Mutn::CredKeyUnknown => "scope-key-unknown",
             Mutn::CredDate => "scope-date",
@@ -312,6 +317,10 @@ fn mutations(b: &Built, base: &Base) -> Vec<Mutn> {
     }
     for i in 0..64 {
         m.push(Mutn::SigDigit(i));
+    }
+    // the right signature cut to a prefix, or lengthened
+    for keep in [0usize, 1, 2, 32, 63, 65] {
+        m.push(Mutn::SigLength(keep));
     }
     let (_, sh, _) = auth_parts(&b.req);
     for i in 0..sh.split(';').count() {
@@ -474,6 +483,10 @@ fn apply(mu: &Mutn, r: &mut Req, body: &mut Vec<u8>, keys: &mut Vec<(String, Str
             let mut s = sig.clone().into_bytes();
             s[*i] = if s[*i] == b'0' { b'1' } else { b'0' };
             set_auth(r, &cred, &sh, &String::from_utf8(s).unwrap());
+        }
+        Mutn::SigLength(keep) => {
+            let t = if *keep <= 64 { sig[..*keep].to_owned() } else { format!("{sig}0") };
+            set_auth(r, &cred, &sh, &t);
         }
         Mutn::CredKeyOther => with_cred(r, 0, AK2),
         Mutn::CredKeyUnknown => with_cred(r, 0, "AKIDUNKNOWN000000000"),
@@ -671,7 +684,7 @@ pub fn run(ctx: &Ctx) -> (Acc, Report) {
     });
     let rep = Report {
         level: "exploration",
-        rule: format!("{n_bases} honestly signed base requests (method x 15 paths x 10 query multisets x 10 signed-header shapes x payload/mode x HTTP/1.1|HTTP/2), each with every applicable single-component mutation (each signed header value/name/removal, each query pair, each path byte, method, each body byte, each signature digit, each scope field, dates, provider secret, signed-header list) and 6 canonical-equivalent rewrites; oracle = reference verifier on the same bytes. Distinct by (base, mutation) id; every evaluated case is non-trivial (it reaches signature comparison or a parse refusal)."),
+        rule: format!("{n_bases} honestly signed base requests (method x 17 paths x 11 query multisets x 10 signed-header shapes x payload/mode x HTTP/1.1|HTTP/2), each with every applicable single-component mutation (each signed header value/name/removal, each query pair, each path byte, method, each body byte, each signature digit, each scope field, dates, provider secret, signed-header list) and 6 canonical-equivalent rewrites; oracle = reference verifier on the same bytes. Distinct by (base, mutation) id; every evaluated case is non-trivial (it reaches signature comparison or a parse refusal)."),
         exhaustive: true,
         extra: json!({"base_requests": n_bases, "quick_tier_note": "quick keeps grid points where at most one of (path, query, header-shape, http2) is beyond its first two values; thorough is the full product"}),
         assumptions: vec![
